@@ -23,8 +23,7 @@
      #18  handle_ll_control_data: instant checks of LL_CONNECTION_UPDATE_IND / LL_CHANNEL_MAP_IND ([instant_passed_update],
           [instant_passed_map])
      #18  handle_phy_request: no instant check at all for LL_PHY_UPDATE_IND
-     #19  check_timing_paremeters: no interval range check, no window size >= 1 check; 32 bit overflow of
-          ( latency + 1 ) * 2 * interval ([check_timing])
+     #19  check_timing_paremeters: REPAIRED (branch fix/C22-connect-timing-ranges); [check_timing] is the repaired code
      #23  transmit_pending_control_pdus: LL_PHY_REQ sent without arming procedure_timeout_ ([transmit_pending_control_pdus])
      #24  handle_encryption_pdus: LL_START_ENC_RSP of size 1 sets is_encrypted( true ) unconditionally
      #25  connection_callbacks: try_push result ignored, 4 entries ([push_event])
@@ -310,16 +309,28 @@ Definition l2cap_reply (body : list N) : l2result :=
        else L2Reply None.
 
 (* ------------------------------------------------------------------------------------------ timing parameters *)
-(* check_timing_paremeters(): None = an assert of delta_time::operator*= fails (32 bit overflow).
-   NOTE (defect #19): neither the interval range 7.5 ms .. 4 s nor transmit window size >= 1.25 ms is checked. *)
+(* check_timing_paremeters() AFTER the repair fix/C22-connect-timing-ranges (DESIGN.md section 7 #19): latency and
+   interval range are checked first, then the window size 1.25 ms .. min( 10 ms, interval ), the supervision timeout
+   100 ms .. 32 s and timeout > ( latency + 1 ) * 2 * interval. None = an assert of delta_time::operator*= fails;
+   with the range checks in front this can no longer happen (LLProofs.check_timing_total).
+   Before the repair: no interval range, no lower bound of the window size, >= instead of >, and the product was
+   computed before the latency check (32 bit overflow: assert in debug builds, a wrapped value otherwise). *)
+Definition minimum_connection_interval : N := 6 * GenLL.us_per_digits.
+Definition maximum_connection_interval : N := 3200 * GenLL.us_per_digits.
+Definition minimum_transmit_window_size : N := GenLL.us_per_digits.
+
 Definition check_timing (t : timing) : option bool :=
-  if (tw_size t <=? GenLL.maximum_transmit_window_offset)
+  if (latency t <=? 499)
+     && (minimum_connection_interval <=? interval t)
+     && (interval t <=? maximum_connection_interval)
+     && (minimum_transmit_window_size <=? tw_size t)
+     && (tw_size t <=? GenLL.maximum_transmit_window_offset)
      && (tw_size t <=? interval t)
      && (GenLL.minimum_connection_timeout <=? conn_timeout t)
      && (conn_timeout t <=? GenLL.maximum_connection_timeout)
   then
     do p <- dt_mul (interval t) ((latency t + 1) * 2);
-    Some ((p <=? conn_timeout t) && (latency t <=? 499))
+    Some (p <? conn_timeout t)
   else Some false.
 
 (* parse_timing_parameters_from_connect_request( body ): the members are assigned even if the result is false *)
@@ -496,7 +507,7 @@ Inductive kind :=
 | KUnknown        (* the final  else if ( opcode != LL_UNKNOWN_RSP ): answered with LL_UNKNOWN_RSP *)
 | KIgnore.        (* LL_UNKNOWN_RSP of a size other than 2: commit = false *)
 
-Definition ctrl_kind (c : cfg) (version_received : bool) (opcode size : N) : kind :=
+Definition ctrl_kind_b (phy enc version_received : bool) (opcode size : N) : kind :=
   if (opcode =? GenLL.LL_CONNECTION_UPDATE_IND) && (size =? 12) then KUpdate
   else if (opcode =? GenLL.LL_TERMINATE_IND) && (size =? 2) then KTerminate
   else if (opcode =? GenLL.LL_VERSION_IND) && (size =? 6) && negb version_received then KVersion
@@ -508,15 +519,18 @@ Definition ctrl_kind (c : cfg) (version_received : bool) (opcode size : N) : kin
   else if (opcode =? GenLL.LL_REJECT_EXT_IND) && (size =? 3) then KRejectExt
   else if (opcode =? GenLL.LL_CONNECTION_PARAM_REQ) && (size =? 24) then KCpr
   (* handle_encryption_pdus *)
-  else if c_enc c && (opcode =? GenLL.LL_ENC_REQ) && (size =? 23) then KEncReq
-  else if c_enc c && (opcode =? GenLL.LL_START_ENC_RSP) && (size =? 1) then KStartEncRsp
-  else if c_enc c && (opcode =? GenLL.LL_PAUSE_ENC_REQ) && (size =? 1) then KPauseEncReq
-  else if c_enc c && (opcode =? GenLL.LL_PAUSE_ENC_RSP) && (size =? 1) then KPauseEncRsp
+  else if enc && (opcode =? GenLL.LL_ENC_REQ) && (size =? 23) then KEncReq
+  else if enc && (opcode =? GenLL.LL_START_ENC_RSP) && (size =? 1) then KStartEncRsp
+  else if enc && (opcode =? GenLL.LL_PAUSE_ENC_REQ) && (size =? 1) then KPauseEncReq
+  else if enc && (opcode =? GenLL.LL_PAUSE_ENC_RSP) && (size =? 1) then KPauseEncRsp
   (* handle_phy_request *)
-  else if c_phy c && (opcode =? GenLL.LL_PHY_REQ) && (size =? 3) then KPhyReq
-  else if c_phy c && (opcode =? GenLL.LL_PHY_UPDATE_IND) && (size =? 5) then KPhyUpdate
+  else if phy && (opcode =? GenLL.LL_PHY_REQ) && (size =? 3) then KPhyReq
+  else if phy && (opcode =? GenLL.LL_PHY_UPDATE_IND) && (size =? 5) then KPhyUpdate
   else if negb (opcode =? GenLL.LL_UNKNOWN_RSP) then KUnknown
   else KIgnore.
+
+Definition ctrl_kind (c : cfg) (version_received : bool) (opcode size : N) : kind :=
+  ctrl_kind_b (c_phy c) (c_enc c) version_received opcode size.
 
 Definition clear_cpr_feature (s : lstate_t) : lstate_t :=
   set_used_features s (N.land (used_features s) (65535 - GenLL.feature_connection_parameters_request_procedure)).
@@ -742,41 +756,56 @@ Definition do_timeout (c : cfg) (s : lstate_t) : option (lstate_t * list item) :
   let '(s3, cbs) := flush_events s2 in
   Some (s3, it ++ cbs).
 
-(* end_event( evts ), after the radio's part of the event *)
-Definition do_end_event (c : cfg) (s : lstate_t) (evts : N) : option (lstate_t * list item) :=
+(* end_event( evts ), after the radio's part of the event; in four parts *)
+(* ... up to  state_ = state::connected; transmit_window_size_ = delta_time(); *)
+Definition end_event_prologue (c : cfg) (s : lstate_t) : lstate_t :=
   let s0 := set_pending_event s false in
   let s1 := match st s0 with Connecting => push_event c s0 (EvEstablished (details_of s0)) | _ => s0 end in
-  let s2 := if lstate_eqb (st s1) Disconnecting then s1
-            else upd_tm (set_st s1 Connected) (fun t => set_tw_size t 0) in
-  do r <-
-    (if lstate_eqb (st s2) Disconnecting && term_sent s2 && negb (pending_outgoing_data_available s2) then
-       Some (force_disconnect c s2)
-     else
-       let '(s3, it3, res) := handle_received_data (S (length (rxq (bf s2)))) c s2 in
-       match res with
-       | DoDisconnect => let '(s4, it4) := force_disconnect c s3 in Some (s4, it3 ++ it4)
-       | GoAhead =>
-           let s4 := send_control_pdus s3 in
-           let t := tsle (cs s4) in
-           let timed_out := negb (proc_timeout s4 =? 0) && (proc_timeout s4 <=? t) in
-           if timed_out then
-             let '(s5, it5) := force_disconnect_reason c s4 GenLL.connection_ll_response_timeout in Some (s5, it3 ++ it5)
-           else
-             let s5 := if negb (proc_timeout s4 =? 0) then set_proc_timeout s4 (proc_timeout s4 - t) else s4 in
-             let '(s6, it6) := transmit_pending_security_pdus c s5 in
-             let evts' := if pending_outgoing_data_available s6 then N.lor evts 16 else evts in
-             do s7 <- plan_next_connection_event c s6 evts';
-             do r8 <- pending_then_setup c s7;
-             let '(s8, it8) := r8 in
-             Some (s8, it3 ++ it6 ++ it8)
-       end);
-  let '(s9, it) := r in
+  if lstate_eqb (st s1) Disconnecting then s1
+  else upd_tm (set_st s1 Connected) (fun t => set_tw_size t 0).
+
+Definition procedure_timed_out (s : lstate_t) : bool :=
+  negb (proc_timeout s =? 0) && (proc_timeout s <=? tsle (cs s)).
+
+(* ... the else branch after handle_received_data() and send_control_pdus() went ahead *)
+Definition end_event_continue (c : cfg) (s4 : lstate_t) (evts : N) : option (lstate_t * list item) :=
+  if procedure_timed_out s4 then
+    Some (force_disconnect_reason c s4 GenLL.connection_ll_response_timeout)
+  else
+    let s5 := if negb (proc_timeout s4 =? 0) then set_proc_timeout s4 (proc_timeout s4 - tsle (cs s4)) else s4 in
+    let '(s6, it6) := transmit_pending_security_pdus c s5 in
+    let evts' := if pending_outgoing_data_available s6 then N.lor evts 16 else evts in
+    do s7 <- plan_next_connection_event c s6 evts';
+    do r8 <- pending_then_setup c s7;
+    let '(s8, it8) := r8 in
+    Some (s8, it6 ++ it8).
+
+Definition end_event_body (c : cfg) (s2 : lstate_t) (evts : N) : option (lstate_t * list item) :=
+  if lstate_eqb (st s2) Disconnecting && term_sent s2 && negb (pending_outgoing_data_available s2) then
+    Some (force_disconnect c s2)
+  else
+    let '(s3, it3, res) := handle_received_data (S (length (rxq (bf s2)))) c s2 in
+    match res with
+    | DoDisconnect => let '(s4, it4) := force_disconnect c s3 in Some (s4, it3 ++ it4)
+    | GoAhead =>
+        do r <- end_event_continue c (send_control_pdus s3) evts;
+        let '(s8, it8) := r in Some (s8, it3 ++ it8)
+    end.
+
+(* ... if ( connected || connecting ) transmit_pending_control_pdus(), transmit_pending_l2cap_output() (nothing
+   queued); handle_connection_events() *)
+Definition end_event_epilogue (c : cfg) (s9 : lstate_t) (it : list item) : lstate_t * list item :=
   let s10 := match st s9 with
-             | Connected | Connecting => transmit_pending_control_pdus c s9    (* transmit_pending_l2cap_output: nothing queued *)
+             | Connected | Connecting => transmit_pending_control_pdus c s9
              | _ => s9
              end in
   let '(s11, cbs) := flush_events s10 in
-  Some (s11, it ++ cbs).
+  (s11, it ++ cbs).
+
+Definition do_end_event (c : cfg) (s : lstate_t) (evts : N) : option (lstate_t * list item) :=
+  do r <- end_event_body c (end_event_prologue c s) evts;
+  let '(s9, it) := r in
+  Some (end_event_epilogue c s9 it).
 
 (* adv_received( receive ) *)
 Definition do_adv_received (c : cfg) (s : lstate_t) (hdr0 : N) (body : list N) : option (lstate_t * list item) :=
